@@ -192,6 +192,59 @@ theorem sync_no_panic (base max : Nat) (rs : List RItem) (ws : List WItem) (ops 
     Out.panic ∉ (run (State.new base max rs ws) ops).2 :=
   run_nopanic ops (Inv.new base max rs ws) ⟨rfl, rfl⟩ hd
 
+/-- **`into_parts` + re-wrap loses and duplicates nothing on the read side.** Take the stream apart
+after any operations `ops1` (buffer in place, inner stream not at its end), hand the returned bytes to
+the caller, wrap the same inner stream again (any limits) and continue with any `ops2`: what the
+caller received in the first life, the bytes `into_parts` returned, what it received in the second
+life, what the second buffer holds and what the inner stream still has are, in this order, exactly
+the inner stream. (Bytes accepted by `write` and not yet flushed are discarded by `into_parts`, as
+documented for `into_inner`; `has_pending_write` tells.) -/
+theorem sync_rewrap_lossless (base max base' max' : Nat) (rs : List RItem) (ws : List WItem) (ops1 ops2 : List Op)
+    (hl : (run (State.new base max rs ws) ops1).1.r.buf.lent = false)
+    (he : (run (State.new base max rs ws) ops1).1.r.innerEof = false) :
+    takenOf ops1 (run (State.new base max rs ws) ops1).2 ++ (run (State.new base max rs ws) ops1).1.r.intoParts ++
+      (takenOf ops2 (run (State.new base' max' (run (State.new base max rs ws) ops1).1.r.script
+          (run (State.new base max rs ws) ops1).1.w.script) ops2).2 ++
+       (run (State.new base' max' (run (State.new base max rs ws) ops1).1.r.script
+          (run (State.new base max rs ws) ops1).1.w.script) ops2).1.r.buf.avail) ++
+      (if (run (State.new base' max' (run (State.new base max rs ws) ops1).1.r.script
+          (run (State.new base max rs ws) ops1).1.w.script) ops2).1.r.innerEof then []
+       else content (run (State.new base' max' (run (State.new base max rs ws) ops1).1.r.script
+          (run (State.new base max rs ws) ops1).1.w.script) ops2).1.r.script) = content rs := by
+  have h1 := sync_read_fifo base max rs ws ops1
+  have h2 := sync_read_fifo base' max' (run (State.new base max rs ws) ops1).1.r.script
+    (run (State.new base max rs ws) ops1).1.w.script ops2
+  simp only [RSide.intoParts, hl, Bool.false_eq_true, if_false]
+  rw [h1.1, h2.1, List.append_assoc, h2.2]
+  have := h1.2
+  simp only [he, Bool.false_eq_true, if_false] at this
+  exact this
+
+/-- **`max_buffer_size = 0` (SyncStream):** nothing is lost or exceeded, the limit is *reported*:
+`write` of a non-empty buffer always answers WouldBlock and leaves the stream unchanged, and
+`fill_read_buf` always answers `OutOfMemory` — in every reachable state. -/
+theorem sync_max0_reported (base : Nat) (rs : List RItem) (ws : List WItem) (ops : List Op) (src : Bytes)
+    (hsrc : src ≠ []) :
+    (run (State.new base 0 rs ws) ops).1.w.write src = ((run (State.new base 0 rs ws) ops).1.w, .err .wb) ∧
+    ((run (State.new base 0 rs ws) ops).1.r.eof = false → (run (State.new base 0 rs ws) ops).1.r.buf.lent = false →
+      (run (State.new base 0 rs ws) ops).1.r.fillStart.2 = some (.err .oom)) := by
+  have hi := (Inv.new base 0 rs ws).run ops
+  have hf := run_frame ops (State.new base 0 rs ws)
+  exact ⟨WSide.write_max0 hi.2 (by rw [hf.2.2.2.2.2]; rfl) hsrc,
+    fun he hl => RSide.fillStart_max0 (by rw [hf.2.2.2.1]; rfl) he hl⟩
+
+/-- **Sticky state after a lost buffer** (a future dropped while Pending, or a panic of
+`consume(amt > available)`): every later call answers the same way and changes nothing — reads
+`WouldBlock`, `consume` panics, `into_parts` returns nothing, `fill_read_buf` panics (or answers
+`Ok(0)` once EOF is latched); writes `WouldBlock`, `flush_write_buf` panics, `has_pending_write` panics. -/
+theorem sync_lost_buffer_sticky (r : RSide) (w : WSide) (n k : Nat) (src : Bytes) :
+    (r.buf.lent = true →
+      r.read n = (r, .err .wb) ∧ r.fillBuf = .err .wb ∧ r.consume n = (r, .panic) ∧ r.intoParts = [] ∧
+      (r.eof = false → r.fill (k + 1) = (r, some .panic)) ∧ (r.eof = true → r.fill (k + 1) = (r, some (.ok 0)))) ∧
+    (w.buf.lent = true →
+      w.write src = (w, .err .wb) ∧ w.flush (k + 1) = (w, some .panic) ∧ w.hasPending = none) :=
+  ⟨fun hl => RSide.lost_sticky r hl n k, fun hl => WSide.lost_sticky w hl src k⟩
+
 /-! ### non-vacuity: the hypotheses are satisfiable on non-trivial runs -/
 
 /-- a read that would block, a short fill, a partial read, a fill across compaction, EOF -/
@@ -335,6 +388,51 @@ theorem async_write_no_panic (base max : Nat) (rs : List RItem) (ws : List WItem
     (hg : GuardedRun (PollAdapter.State.new base max rs ws) ops) :
     NoWritePanic ops (PollAdapter.run (PollAdapter.State.new base max rs ws) ops).2 :=
   (WSafe.run ops (WSafe.new base max ws) hg).1
+
+/-- **Termination of the read entry points, with a measure.** As long as no read-half call has
+panicked, `poll_read` / `poll_read_uninit` / `poll_fill_buf` never spin: at most two rounds of
+`sync call → WouldBlock → poll the fill future` (after a round whose future completed `Ok`, the
+buffer is in place and holds data or EOF is latched, so the next synchronous call succeeds) — the
+model's fuel `4 + |script|` is never exhausted. Every inner script, base capacity, limit (also 0). -/
+theorem async_read_terminates (base max : Nat) (rs : List RItem) (ws : List WItem) (ops : List PollAdapter.Op)
+    (hp : AllOuts (fun op o => isReadOp op = true → o ≠ .panic) ops
+      (PollAdapter.run (PollAdapter.State.new base max rs ws) ops).2) :
+    AllOuts (fun op o => isReadOp op = true → o ≠ .hang) ops
+      (PollAdapter.run (PollAdapter.State.new base max rs ws) ops).2 :=
+  ReadOK.run (C := content rs) ops ⟨ARInv.new base max rs, rfl⟩ (WInv.new base max ws) hp
+
+/-- **Termination of the write entry points, with a measure**, guard `0 < max_buffer_size` only:
+whatever the callers do (including the F15 interleavings and after panics of the `debug_assert!`s),
+`poll_write` ends within three rounds (a possibly stale flush future completes; a fresh flush
+empties the buffer; `write` into an empty buffer with a positive limit accepts), `poll_flush` and
+`poll_close` have no loop. -/
+theorem async_write_terminates (base max : Nat) (rs : List RItem) (ws : List WItem) (ops : List PollAdapter.Op)
+    (hm : 0 < max) :
+    AllOuts (fun op o => isReadOp op = false → o ≠ .hang) ops
+      (PollAdapter.run (PollAdapter.State.new base max rs ws) ops).2 :=
+  write_run_term ops (WBase.new base max ws) hm
+
+/-- **`max_buffer_size = 0` (AsyncStream), finding F121:** with an inner writer that is always ready,
+`poll_write` of a non-empty buffer never returns — for every fuel the model's loop is still going
+(`write` answers "buffer full", the flush succeeds with nothing to do, …): the limit is turned into
+a busy hang instead of being reported. -/
+theorem async_max0_poll_write_spins (base t : Nat) (src : Bytes) (hsrc : src ≠ []) (fuel : Nat) :
+    (({ AWrite.new base 0 [] with slots := Slots.empty.set .a (some t) } : AWrite).writeLoop src fuel).2 = .hang :=
+  writeLoopA_max0_spins hsrc fuel (WInv.new base 0 []) rfl rfl rfl rfl
+
+/-- **Sticky state of the read half after its buffer was lost by a panic** (no future in flight):
+before EOF every further poll panics (`expect(MISSING_BUF)`), once EOF is latched every further poll
+spins (`fill_read_buf` answers `Ok(0)` before it notices the missing buffer). -/
+theorem async_lost_read_buffer_sticky (C : Bytes) (a : ARead) (e : Entry) (n fuel : Nat)
+    (hl : a.r.buf.lent = true) (hfut : a.fut = false) :
+    (a.r.eof = false → (a.pollLoop e (fun r => r.read n) (fuel + 1)).2 = .panic ∧
+                        (a.pollLoop e (fun r => (r, r.fillBuf)) (fuel + 1)).2 = .panic) ∧
+    (a.r.eof = true → (a.pollLoop e (fun r => r.read n) fuel).2 = .hang ∧
+                       (a.pollLoop e (fun r => (r, r.fillBuf)) fuel).2 = .hang) :=
+  ⟨fun he => ⟨pollLoop_lost_panics (SyncCall.read C n) e hl hfut he fuel,
+              pollLoop_lost_panics (SyncCall.fillBuf C) e hl hfut he fuel⟩,
+   fun he => ⟨pollLoop_lost_eof_spins (SyncCall.read C n) e hl hfut he fuel,
+              pollLoop_lost_eof_spins (SyncCall.fillBuf C) e hl hfut he fuel⟩⟩
 
 /-- **Waker law.** In every reachable state and for every next call:
 (1) if the call returns Pending, the inner stream is parked with a waker snapshot containing the caller;
